@@ -50,6 +50,9 @@ def configs():
                 for re_ in (False, True):
                     for a, b in ((1, 1), (2, 3), (3, 1), (4, 4), ("rt", "rt"), (2, "rt"), ("rt", None), (3, None)):
                         out.append({"w": "toggle", "a": a, "b": b, "fs": fs_, "ds": ds, "re": re_, "reset": reset})
+                    # both phase lengths given as Durations (converted with the context's clock period: 10 ns)
+                    for a, b in ((2, 5), (3, 1), (1, 4)):
+                        out.append({"w": "toggle", "a": a, "b": b, "fs": fs_, "ds": ds, "re": re_, "reset": reset, "dur": True})
         for lim in (1, 3, 6, "rt"):
             out.append({"w": "counter", "lim": lim, "reset": reset})
         for p in (1, 2, 3, 4, 7, 9):
@@ -106,13 +109,15 @@ def render_src(cfg):
         else:
             L += ["        @ctx", "        def proc():", f"            self.o <<= std.delayed(self.x, {cfg['n']}{ini})", "            self.t1 <<= self.x"]
     elif w in ("clkdiv", "toggle"):
-        L += ["    p = Port.input(Unsigned[4])", "    q = Port.input(Unsigned[4])", "    do_en = Port.input(Bit)", "    do_dis = Port.input(Bit)", "    state = Port.output(Bit)", "    rising = Port.output(Bit)", "    falling = Port.output(Bit)", "", "    def architecture(self):", ctx_line(cfg)]
+        L += ["    p = Port.input(Unsigned[4])", "    q = Port.input(Unsigned[4])", "    do_en = Port.input(Bit)", "    do_dis = Port.input(Bit)", "    state = Port.output(Bit)", "    rising = Port.output(Bit)", "    falling = Port.output(Bit)", "", "    def architecture(self):", ctx_line(cfg, freq=bool(cfg.get("dur")))]
         if w == "clkdiv":
             per = "self.p" if cfg["p"] == "rt" else str(cfg["p"])
             L.append(f"        gen = std.ClockDivider(ctx, {per}, default_state={cfg['ds']}, tick_at_start={cfg['ts']}, require_enable={cfg['re']})")
         else:
             a = "self.p" if cfg["a"] == "rt" else str(cfg["a"])
             b = "" if cfg["b"] is None else (", self.q" if cfg["b"] == "rt" else f", {cfg['b']}")
+            if cfg.get("dur"):
+                a, b = f"std.ns({10 * cfg['a']})", f", std.ns({10 * cfg['b']})"
             L.append(f"        gen = std.ToggleSignal(ctx, {a}{b}, default_state={cfg['ds']}, first_state={cfg['fs']}, require_enable={cfg['re']})")
         L += ["        @ctx", "        def ctl():", "            if self.do_en:", "                gen.enable()", "            elif self.do_dis:", "                gen.disable()", "        @std.concurrent", "        def views():", "            self.state <<= gen.state()", "            self.rising <<= gen.rising()", "            self.falling <<= gen.falling()"]
     elif w == "counter":
